@@ -497,7 +497,15 @@ pub fn run(n: usize, rng: &mut Rng, out: &mut Out) {
                 let c = doc::inline_text(rng, 0, 6);
                 emit_parse(out, conf, &c, &[(0, 0)], &random_refs(rng), "parse:gen-inline-text");
             }
-            2 => {
+            2 => if rng.chance(1, 2) {
+                // forests of emphasis (siblings of different depth inside enclosing pairs), often under a small limit
+                let d = rng.range(2, 6);
+                let f = crate::oracle::c02::emph_forest(rng, d);
+                let c = match rng.below(4) { 0 => format!("[{}](u)", f), 1 => format!("![{}](u) {}", f, crate::oracle::c02::emph_forest(rng, 2)), _ => f };
+                let small: Vec<&Conf> = confs.iter().filter(|c| c.md.max_nesting >= 1 && c.md.max_nesting <= 5).collect();
+                let conf = if !small.is_empty() && rng.chance(3, 4) { *rng.pick(&small) } else { conf };
+                emit_parse(out, conf, &c, &[(0, 0)], &random_refs(rng), "parse:emph-forest");
+            } else {
                 let c = doc::sig_string(rng, 30);
                 emit_parse(out, conf, &c, &[(0, 0)], &random_refs(rng), "parse:gen-sig-string");
             }
